@@ -2,7 +2,7 @@
     All statements are for EVERY decoder behaviour [D] (the decoders are parameters of the
     session model: whatever Open.parse / Update.parse return or raise). *)
 From YV Require Import lib.Base model.YWorld model.YProto gen.Consts gen.FsmGen model.YFraming
-  model.YSession proof.SessionInv proof.SessionNoEscape proof.SessionC10.
+  model.YSession proof.SessionInv proof.SessionNoEscape proof.SessionC10 proof.SessionRP.
 
 (** Nothing escapes: along every event sequence from boot (connection results, ANY bytes from
     the peer in any state and segmentation, timer expiries, operator commands) no step raises an
@@ -38,5 +38,24 @@ Theorem C10_bad_update_keeps_session : forall (D : decoders) c msg w,
 Proof. exact bad_update_keeps_session. Qed.
 Print Assumptions C10_bad_update_keeps_session.
 
-(** The last clause of the property ("after any input the agent is either still in session or has
-    closed cleanly with its reconnect scheduled") is the invariant C02_reconnect_pending. *)
+(** "After any input the agent is either still in session or has closed cleanly with its
+    reconnect scheduled": along every event sequence from start-up (any bytes in any state),
+    unless the operator stopped the peer, the FSM is in a session state on a connected tracked
+    transport, or Idle with the restart timer armed / the close of the tracked connection in
+    progress (whose completion arms it), or in Connect with the connect-retry timer armed. *)
+Theorem C10_in_session_or_reconnect_scheduled : forall (D : decoders) cf capl es,
+  let w := run D (world0 cf capl) (EBoot :: es) in
+  w_auto w = true ->
+  match w_state w with
+  | StOpenSent | StOpenConfirm | StEstablished => exists c, w_proto w = Some c /\ conn_connected c w = true
+  | StIdle => t_dl (w_tih w) <> None \/
+              (exists c, w_proto w = Some c /\ conn_connected c w = true /\ c_disc (get_conn c w) = true)
+  | StConnect => t_dl (w_tcr w) <> None
+  | StActive => False
+  end.
+Proof.
+  intros D cf capl es w Ha. destruct (reconnect_pending D cf capl es) as [(H1 & H2 & H3 & H4) H5].
+  fold w in H1, H2, H3, H4, H5. specialize (H5 Ha). unfold pending, closing_tracked in H5. unfold tracked_ok in H2.
+  destruct (w_state w); auto; destruct (H2 eq_refl) as (c & A & B & _); exists c; auto.
+Qed.
+Print Assumptions C10_in_session_or_reconnect_scheduled.
